@@ -335,27 +335,25 @@ func (n *AbsfsNFS) UpdateExportOptions(newOptions ExportOptions) error {
 		return fmt.Errorf("nil server")
 	}
 
-	// Apply tuning changes (lock-free, immediate).
-	// Use tuningFromExportOptions for complete field coverage.
-	// Preserve Timeouts and Log from the current snapshot when not provided,
-	// since nil pointer fields would cause panics on NFS operations.
-	n.UpdateTuningOptions(func(t *TuningOptions) {
-		newTuning := tuningFromExportOptions(&newOptions)
-		if newTuning.Timeouts == nil {
-			newTuning.Timeouts = t.Timeouts
-		}
-		if newTuning.Log == nil {
-			newTuning.Log = t.Log
-		}
-		*t = *newTuning
-	})
-
-	// Validate immutable fields before attempting policy update.
+	// Validate immutable fields before changing anything, so that a rejected
+	// update leaves the whole configuration as it was.
 	// Squash cannot be changed at runtime.
 	currentPolicy := n.policy.Load()
 	if newOptions.Squash != "" && newOptions.Squash != currentPolicy.Squash {
 		return fmt.Errorf("cannot change Squash mode at runtime (requires restart)")
 	}
+
+	// Apply tuning changes (lock-free, immediate).
+	// Use tuningFromExportOptions for complete field coverage.
+	// Preserve Log from the current snapshot when not provided. A nil Timeouts
+	// gets the construction defaults (see applyTuningDefaults).
+	n.UpdateTuningOptions(func(t *TuningOptions) {
+		newTuning := tuningFromExportOptions(&newOptions)
+		if newTuning.Log == nil {
+			newTuning.Log = t.Log
+		}
+		*t = *newTuning
+	})
 
 	// Apply policy changes (drain-and-swap)
 	newPolicy := PolicyOptions{
